@@ -17,8 +17,8 @@ What Capella's "fragment" action does to the files, reproduced here with plain l
   and its ``href``s into the semantic model are re-pointed at the file that now owns the target.
 
 Relative paths are computed with ``posixpath.relpath`` and quoted with ``urllib.parse.quote``
-(RFC 3986, UTF-8); with ``raw_nonascii=True`` non-ASCII characters are left unquoted (the other
-spelling the loader has to accept).
+(RFC 3986, UTF-8); with ``raw_nonascii=True`` non-ASCII characters, with ``raw_subdelims=True`` the RFC 3986
+sub-delims ``!$&'()*+,;=@`` are left unquoted (the other spellings the loader has to accept: EMF does not escape them).
 """
 
 from __future__ import annotations
@@ -53,10 +53,17 @@ class Layout:
         return self.root / self.project / self.entry
 
 
-def _quote(path: str, raw_nonascii: bool) -> str:
-    if raw_nonascii:
-        return "".join(ch if ord(ch) > 127 else urllib.parse.quote(ch, safe="/") for ch in path)
-    return urllib.parse.quote(path, safe="/")
+SUBDELIMS = "!$&'()*+,;=@"
+
+
+def _quote(path: str, raw) -> str:
+    """raw = (raw_nonascii, raw_subdelims): which characters are left unquoted. urllib quotes both groups; EMF
+    leaves RFC 3986 sub-delims (and, depending on the platform encoding, non-ASCII characters) as they are."""
+    raw_nonascii, raw_subdelims = raw if isinstance(raw, tuple) else (bool(raw), False)
+    if not raw_nonascii and not raw_subdelims:
+        return urllib.parse.quote(path, safe="/")
+    return "".join(ch if (raw_nonascii and ord(ch) > 127) or (raw_subdelims and ch in SUBDELIMS)
+                   else urllib.parse.quote(ch, safe="/") for ch in path)
 
 
 def _rel(target: str, from_file: str) -> str:
@@ -155,6 +162,7 @@ def fragment(
     main_rel: str | None = None,
     airdfragments: bool = False,
     raw_nonascii: bool = False,
+    raw_subdelims: bool = False,
     resources: dict[str, pathlib.Path] | None = None,
     resource_rename: dict[str, dict[str, str]] | None = None,
 ) -> Layout:
@@ -165,6 +173,7 @@ def fragment(
     resource_rename: {library name: {old file: new file}} (library-relative): rename files inside a library
         resource (e.g. to the very name the project's own semantic file has) and re-point every reference.
     """
+    raw = (raw_nonascii, raw_subdelims)
     src_aird = pathlib.Path(src_aird)
     src_dir = src_aird.parent
     project = src_dir.name
@@ -247,7 +256,7 @@ def fragment(
 
     for ph, frag_file, ident in placeholders:
         here = file_of_elem[id(ph)]
-        ph.set("href", f"{_quote(_rel(frag_file, here), raw_nonascii)}#{ident}")
+        ph.set("href", f"{_quote(_rel(frag_file, here), raw)}#{ident}")
 
     # ---- reference attributes in the semantic trees
     for fname, root in trees.items():
@@ -279,7 +288,7 @@ def fragment(
                     if tgt_new == fname:
                         new_parts.append(f"#{ident}")
                     else:
-                        q = _quote(_rel(tgt_new, fname), raw_nonascii)
+                        q = _quote(_rel(tgt_new, fname), raw)
                         new_parts.append(f"{typ} {q}#{ident}" if typ else f"{q}#{ident}")
                 if ok:
                     e.set(k, " ".join(new_parts))
@@ -295,21 +304,21 @@ def fragment(
             path, _, ident = href.partition("#")
             tgt = _resolve(urllib.parse.unquote(path), aird_name) if path else None
             if path and tgt == old_main and ident in owner:
-                e.set("href", f"{_quote(_rel(owner[ident], aird_name), raw_nonascii)}#{ident}")
+                e.set("href", f"{_quote(_rel(owner[ident], aird_name), raw)}#{ident}")
             elif tgt in ext_map:
-                e.set("href", f"{_quote(_rel(ext_map[tgt], aird_name), raw_nonascii)}#{ident}")
+                e.set("href", f"{_quote(_rel(ext_map[tgt], aird_name), raw)}#{ident}")
     sem_elems = list(aird_root.iter("semanticResources"))
     last = sem_elems[-1]
     for se in sem_elems:
         text = urllib.parse.unquote(se.text or "")
         if text == old_main:
-            se.text = _quote(_rel(new_main, aird_name), raw_nonascii)
+            se.text = _quote(_rel(new_main, aird_name), raw)
         elif text and _resolve(text, aird_name) in ext_map:
             new = ext_map[_resolve(text, aird_name)]
             if text.startswith("platform:/resource/"):
-                se.text = "platform:/resource/" + _quote(new[len("../"):], raw_nonascii)
+                se.text = "platform:/resource/" + _quote(new[len("../"):], raw)
             else:
-                se.text = _quote(_rel(new, aird_name), raw_nonascii)
+                se.text = _quote(_rel(new, aird_name), raw)
     n = 0
     for frag_file in fragments:
         n += 1
@@ -324,15 +333,15 @@ def fragment(
                 fr.set("version", aird_root.get("version"))
             for target in (new_main, frag_file):
                 s = etree.SubElement(fr, "semanticResources")
-                s.text = _quote(_rel(target, af), raw_nonascii)
+                s.text = _quote(_rel(target, af), raw)
             _write(etree.ElementTree(fr), pdir / af)
             ra = etree.Element("referencedAnalysis")
-            ra.set("href", f"{_quote(_rel(af, aird_name), raw_nonascii)}#{uid}")
+            ra.set("href", f"{_quote(_rel(af, aird_name), raw)}#{uid}")
             last.addnext(ra)
             last = ra
         else:
             s = etree.Element("semanticResources")
-            s.text = _quote(_rel(frag_file, aird_name), raw_nonascii)
+            s.text = _quote(_rel(frag_file, aird_name), raw)
             last.addnext(s)
             last = s
     _write(aird_tree, pdir / aird_name)
